@@ -6,10 +6,8 @@ Require Import PX.Base.Str PX.Model.Dom PX.Model.Top PX.Spec.XmlParse PX.Spec.Xm
 Fixpoint dom_ns_ok (scope : list str) (n : node) : bool :=
   match n with
   | PT _ | MT _ => true
-  | ME t a => let scope' := declared a ++ scope in bound scope' t && forallb (fun p => bound scope' (fst p)) a
-  | DE t a kids =>
-      let scope' := declared a ++ scope in
-      bound scope' t && forallb (fun p => bound scope' (fst p)) a && forallb (dom_ns_ok scope') kids
+  | ME t a => let scope' := declared a ++ scope in here_ns scope' t a
+  | DE t a kids => let scope' := declared a ++ scope in here_ns scope' t a && forallb (dom_ns_ok scope') kids
   end.
 Fixpoint dom_attrs_unique (n : node) : bool :=
   match n with
@@ -71,7 +69,7 @@ Lemma ns_ok_canon n sc ind add nl : is_elem n = true -> dom_ns_ok sc n = true ->
 Proof.
   intros He H.
   apply (pres_canon dom_ns_ok ns_ok) with (ext := fun a sc => declared a ++ sc)
-           (here := fun sc' t a => bound sc' t && forallb (fun p => bound sc' (fst p)) a); try assumption.
+           (here := here_ns); try assumption.
   all: intros; try split; reflexivity.
 Qed.
 Lemma attrs_unique_canon n ind add nl : is_elem n = true -> dom_attrs_unique n = true -> attrs_unique (canon_el ind add nl n) = true.
